@@ -18,11 +18,13 @@ EXTENDS Rat, TLC, Json, FiniteSetsExt
 
 CONSTANTS Angles,     \* sequence of [c |-> Rat, s |-> Rat, turns |-> Int, name |-> string]
           SampleSets, \* sequence of [ns |-> Seq(Int), ew |-> Seq(Int), vt |-> Seq(Int)]
-          MaxOps, Export
+          MaxOps, Export,
+          SplitKeepsOrientation   \* TRUE: the windows of a recording report the recording's orientation (the design);
+                                  \* FALSE (negative configuration): they report north - Composable must fail
 
 NAng == Len(Angles)
-VARIABLES dep, sset, ops, cur, ns, ew, vt
-vars == <<dep, sset, ops, cur, ns, ew, vt>>
+VARIABLES dep, sset, ops, cur, ns, ew, vt, split
+vars == <<dep, sset, ops, cur, ns, ew, vt, split>>
 
 C(a) == Angles[a].c
 S(a) == Angles[a].s
@@ -38,13 +40,22 @@ ToRat(q) == [t \in 1..Len(q) |-> R(q[t])]
 Init == /\ dep \in 1..NAng /\ sset \in 1..Len(SampleSets)
         /\ ops = <<>> /\ cur = dep
         /\ ns = ToRat(SampleSets[sset].ns) /\ ew = ToRat(SampleSets[sset].ew) /\ vt = ToRat(SampleSets[sset].vt)
+        /\ split = FALSE
 
 OrientTo(a) == /\ Len(ops) < MaxOps
                /\ ns' = RotNs(ns, ew, DiffC(a, cur), DiffS(a, cur))
                /\ ew' = RotEw(ns, ew, DiffC(a, cur), DiffS(a, cur))
                /\ cur' = a /\ ops' = Append(ops, a)
-               /\ UNCHANGED <<dep, sset, vt>>
-Next == \E a \in 1..NAng : OrientTo(a)
+               /\ UNCHANGED <<dep, sset, vt, split>>
+\* split(): the windows are new objects carrying the samples as they are and the orientation the recording reports
+\* (`cur` is the REPORTED orientation, the samples are the truth; recorded in `ops` as 0).  Orienting a window later
+\* rotates by (target - reported), so a window that forgot its orientation ends up on the wrong azimuth.
+North == CHOOSE a \in 1..NAng : C(a) = R(1) /\ S(a) = R(0) /\ Angles[a].turns = 0
+Split == /\ ~split /\ Len(ops) < MaxOps
+         /\ split' = TRUE /\ ops' = Append(ops, 0)
+         /\ cur' = IF SplitKeepsOrientation THEN cur ELSE North
+         /\ UNCHANGED <<dep, sset, ns, ew, vt>>
+Next == (\E a \in 1..NAng : OrientTo(a)) \/ Split
 
 Ns0 == ToRat(SampleSets[sset].ns)
 Ew0 == ToRat(SampleSets[sset].ew)
@@ -81,5 +92,5 @@ Periodic180 == \A n_ \in Bins, e_ \in Bins : \A a \in 1..NAng :
         ProjSq(n_, e_, C(a), S(a)) = ProjSq(n_, e_, RNeg(C(a)), RNeg(S(a)))
 
 ExportBehaviour == (Export /\ Len(ops) >= 1) =>
-    PrintT(ToJson([dep |-> dep, sset |-> sset, ops |-> ops, ns |-> ns, ew |-> ew, vt |-> vt]))
+    PrintT(ToJson([dep |-> dep, sset |-> sset, ops |-> ops, cur |-> cur, ns |-> ns, ew |-> ew, vt |-> vt]))
 =============================================================================
